@@ -1,5 +1,5 @@
 (** C08 - Separation time (STmin) requested by the receiver is honoured. *)
-From IsoTp Require Import Base.Prelude Model.Layer Model.FloatTables Proofs.LocalP.
+From IsoTp Require Import Base.Prelude Model.Micro Model.FloatTables Proofs.LocalP Proofs.PacingP.
 
 (** A Consecutive Frame is handed out only if the STmin timer has expired: since the instant t0
     at which it was last started, more than its timeout elapsed (or the timeout is zero). *)
@@ -38,8 +38,27 @@ Proof. exact stmin_ns_table. Qed.
 Theorem C08_zero : forall nw t, t_timeout t = 0 -> timer_running t = true -> timer_timed_out nw t = true.
 Proof. exact zero_stmin_no_delay. Qed.
 
+(** Run level.  [cf_emitted c s = Some s3]: the transmit pass taken in state [s] emits a Consecutive
+    Frame, built from state [s3] (Proofs/PacingP.v).  [paced c s lc ms]: along the run [ms] from
+    [s], with [lc] the instant of the last Consecutive Frame so far, every Consecutive Frame leaves
+    at least the separation time held by the STmin timer at that moment (programmed by the last
+    accepted ContinueToSend, C08_programmed) after the previous one.  It holds for EVERY run of
+    micro-steps from the initial state - every schedule of process() passes, user calls, received
+    frames and non-negative clock ticks. *)
+Theorem C08_pass : forall c s t0, Q t0 s ->
+  match cf_emitted c s with
+  | Some s3 => t_timeout (timer_tx_stmin s3) <= now s - t0 /\ Q (now s) (tr_s (process_tx c s))
+  | None => Q t0 (tr_s (process_tx c s))
+  end.
+Proof. exact tx_pass_pacing. Qed.
+
+Theorem C08_run : forall c t0 ms, ticks_nonneg ms -> paced c (init_layer c t0) None ms.
+Proof. exact pacing_from_init. Qed.
+
 Print Assumptions C08_gate.
 Print Assumptions C08_restart.
 Print Assumptions C08_programmed.
 Print Assumptions C08_table.
 Print Assumptions C08_zero.
+Print Assumptions C08_pass.
+Print Assumptions C08_run.
